@@ -101,8 +101,10 @@ def _gen_spf(g):
     add('spfIp6CidrMin', c(F, 'spfip6', r'\(u < (\d+)\)', 'ip6 cidr min'), 'spfip6: u < N')
     add('spfIp6CidrMax', c(F, 'spfip6', r'\(u > (\d+)\)', 'ip6 cidr max'), 'spfip6: u > N')
     add('spfIp6LenMin', c(F, 'spfip6', r'ip6len < (\d+)', 'ip6 literal min'), 'spfip6: ip6len < N')
-    add('spfDsIp4CidrMax', c(F, 'spf_domainspec', r'\*ip4cidr > (\d+)', 'domainspec ip4 cidr'), 'spf_domainspec: *ip4cidr > N')
-    add('spfDsIp6CidrMax', c(F, 'spf_domainspec', r'\*ip6cidr > (\d+)', 'domainspec ip6 cidr'), 'spf_domainspec: *ip6cidr > N')
+    # since the repair of the CIDR overflow the value is range-checked as a long before it is stored:
+    # `(l < 0) || (l > N) || ...` followed by `*ip4cidr = l;` / `*ip6cidr = l;`
+    add('spfDsIp4CidrMax', c(F, 'spf_domainspec', r'\(l < 0\) \|\| \(l > (\d+)\)[^;{]*\{[^}]*\}\s*\*ip4cidr = l;', 'domainspec ip4 cidr'), 'spf_domainspec: 0 <= l <= N, then *ip4cidr = l')
+    add('spfDsIp6CidrMax', c(F, 'spf_domainspec', r'\(l < 0\) \|\| \(l > (\d+)\)[^;{]*\{[^}]*\}\s*\*ip6cidr = l;', 'domainspec ip6 cidr'), 'spf_domainspec: 0 <= l <= N, then *ip6cidr = l')
     add('spfMakroNumDefault', c(F, 'spf_makroparam', r'\} else \{\s*\*num = (\d+);', 'default DIGIT'), 'spf_makroparam: *num = N when no DIGIT is given')
     add('spfMakroNumCap', c(F, 'spf_makroparam', r'if \(\*num < (\d+)\)', 'DIGIT cap'), 'spf_makroparam: digits are only accumulated while *num < N')
     t = g.text(F) or ''
